@@ -294,6 +294,12 @@ fn run_arguments<'a>(
 #[kani::proof]
 #[kani::unwind(3)]
 #[kani::stub(core::str::from_utf8, ascii_only_from_utf8)]
+#[kani::stub(hexadecimal_numeric_program_data, never_tried)]
+#[kani::stub(binary_numeric_program_data, never_tried)]
+#[kani::stub(octal_numeric_program_data, never_tried)]
+#[kani::stub(single_quoted_string_program_data, never_tried)]
+#[kani::stub(double_quoted_string_program_data, never_tried)]
+#[kani::stub(arbitrary_program_data, never_tried)]
 fn k_arguments_max_10() {
     let input: &[u8] = b"8,9,0\n";
     let mut args: Vec<Value<'_>, MAX_ARGS> = Vec::new();
